@@ -88,6 +88,7 @@ class MediaBase(BaseWorld):
             cls._sim_serial_counter["n"] = 0
         self.fabric = fakes.IceFabric(self.loop, ch, spec["seed_int"])
         self.fabric.turn = cfg.get("turn")
+        self.fabric.distinct_credentials = bool(cfg.get("distinct_ice"))
         self._saved = [(icemod, "Connection", icemod.Connection)]
         icemod.Connection = self.fabric.make_connection
 
